@@ -36,8 +36,8 @@ DATES = [-1, 0, 0, 0.5, 1, 1, 1.5, 2, 2, 2.5, 3, 4, 5, 8]
 STARTS = [0, 0, 0, -5, 0.5, 7, 1e6, 2.0 ** 53, 1e17]
 # decimal fractions are inexact in binary floating point: now + (t - now) is not always t, and
 # a + b + c depends on the order - a date must still be met exactly and a delay is one addition
-DEC_GRID = [0, 0.1, 0.2, 0.3, 0.3, 0.7, 0.9, 1.1, 2.3, 1e16 + 2]
-DEC_DATES = [-0.1, 0, 0.1, 0.3, 0.7, 0.9, 1.1, 1.7, 2.3, 2.9, 3.3, 1e16 + 2]
+DEC_GRID = [0, 0.1, 0.2, 0.3, 0.3, 0.7, 0.8, 0.9, 1.1, 1.2, 2.3, 1e16 + 2]
+DEC_DATES = [-0.1, 0, 0.1, 0.3, 0.7, 0.9, 1.1, 1.7, 2.3, 2.9, 3.3, 3.4, 3.9, 1e16 + 2]
 DEC_STARTS = [0, 0, 0.2, 3, 0.1, -0.3]
 
 
